@@ -277,6 +277,15 @@ def _run_split(case, ctx):
     tr = gen.make_track(_points(n), _times(n))
     tr.uid = "src"
     tr.createAnalyticalFeature("id", list(range(n)))
+    if sum(markers) % 2 == 0:
+        # error path first: the same requests made BEFORE the marker / tested feature exists are rejected (after a
+        # per-observation access to another feature); the valid requests below follow on the same track object
+        M.call(lambda: tr["id", n - 1])
+        if via == "direct":
+            M.call(split, tr, "m")
+        else:
+            M.call(segmentation, tr, "v", "m_rejected", 1.5, _mode_const(case.get("mode", "AND")))
+        ctx.count("rejected_request_before_valid_one")
     if via == "direct":
         one, zero = (1.0, 0.0) if case.get("rep") == "float" else (1, 0)
         tr.createAnalyticalFeature("m", [one if m else zero for m in markers])
@@ -388,13 +397,19 @@ def _run_seg(case, ctx):
 
     tr = gen.make_track(_points(n), _times(n))
     names = ["f%d" % f for f in range(k)]
-    for f in range(k):
-        tr.createAnalyticalFeature(names[f], [vals[i][f] for i in range(n)])
     afs, thrs = list(names), list(thr)
     if form in ("scalar", "scalar_af"):
         afs = names[0]
     if form in ("scalar", "scalar_thr"):
         thrs = thr[0]
+    if (n + k + len(expected) + sum(expected)) % 2 == 0:
+        # error path first: the same request is rejected because the tested features do not exist yet
+        tr.createAnalyticalFeature("aux", [7.0 + i for i in range(n)])
+        M.call(lambda: tr["aux", n - 1])
+        M.call(segmentation, tr, afs, "m_rejected", thrs, _mode_const(mode))
+        ctx.count("rejected_request_before_valid_one")
+    for f in range(k):
+        tr.createAnalyticalFeature(names[f], [vals[i][f] for i in range(n)])
     if case.get("prior"):
         # history: the output feature already exists, filled by the other mode
         r0 = M.call(segmentation, tr, afs, "m", thrs, _mode_const("OR" if mode == "AND" else "AND"))
